@@ -127,7 +127,12 @@ func TestC13(t *testing.T) {
 		o := model.GenOpts{Sparse: rapid.Bool().Draw(rt, "sparse"), NoUnkeyed: true}
 		th.SteerAway(rec, &o)
 		m := model.GenTree(rt, v, o)
+		// one tree in four is built the way a caller who reuses values builds it: equal scalar leaves of one
+		// Go type share a single variable; the library must not write through such a pointer
 		root := model.Build(m)
+		if rapid.IntRange(0, 3).Draw(rt, "sharedleaves") == 0 {
+			root = model.BuildShared(m)
+		}
 		sch := &ytypes.Schema{Root: root, SchemaTree: v.Schema().SchemaTree, Unmarshal: v.Schema().Unmarshal}
 		nreq := rapid.IntRange(1, 5).Draw(rt, "requests")
 		var hist, cl []string
